@@ -47,7 +47,7 @@ finally:
     subprocess.run(["git", "-C", "/repo", "worktree", "remove", "--force", wt], capture_output=True)
     mine = re.sub(r"\W", "_", wt)
     for d in os.listdir(os.path.join(ROOT, "run")):
-        if d.endswith(mine) or d.endswith(mine + "_search"):
+        if mine in d:
             shutil.rmtree(os.path.join(ROOT, "run", d), ignore_errors=True)
     bind = os.path.join(ROOT, "run", "bin")
     for d in os.listdir(bind) if os.path.isdir(bind) else []:
